@@ -30,6 +30,9 @@ var c06Notices = []string{
 	"Copyright © 2015 Foo",
 	"COPYRIGHT 2001-2005 THE AUTHORS",
 	" * Copyright 2017, The Authors.",
+	// leads of up to five CHARACTERS that are not five bytes
+	"\u7248\u6743\u6240\u6709 Copyright (c) 2020 X",
+	"\u0410\u0432\u0442. Copyright 2020 Y",
 }
 
 var c06Dates = []string{"2020-01-02", "1999-dec-31"}
